@@ -71,6 +71,9 @@ class Concretizer:
             return {'$float_bits': _ev(self.model, z3.Int(name + '#bits'))}
         if k == 'none':
             return None
+        if k == 'fconst':
+            import struct
+            return {'$float_bits': int.from_bytes(struct.pack('<d', float(typ[1])), 'little')}
         if k == 'enum':
             ci = typ[1]
             members = self.ex.index.enum_members(ci)
@@ -116,6 +119,9 @@ class Concretizer:
             return {'$frac': [0, 1]}
         if k == 'float':
             return {'$float_bits': 0}
+        if k == 'fconst':
+            import struct
+            return {'$float_bits': int.from_bytes(struct.pack('<d', float(typ[1])), 'little')}
         if k == 'enum':
             ci = typ[1]
             return {'$enum': ci.qualname, 'member': self.ex.index.enum_members(ci)[0][0]}
